@@ -35,7 +35,6 @@ impl Default for C12 {
             "purge_ok",
             "configure_bank_ok",
             "configure_frozen_bank_ok",
-            "foreign_flag_bits_submitted",
             "bank_frozen",
             "oracle_change_on_frozen_bank_rejected",
             "deleverage_window_reset",
@@ -332,19 +331,6 @@ impl Monitor for C12 {
             let was_frozen = pre.flags & FREEZE_SETTINGS != 0;
             let Some(mask) = allowed(ix.tag, was_frozen) else { continue };
             let changed = model::bank_changed_fields(&pre, &post);
-            if matches!(ix.tag, "setup_emissions" | "update_emissions") {
-                // did the caller submit bits outside the two emissions flags?
-                let submitted = if ix.tag == "setup_emissions" {
-                    Some(u64::from_le_bytes(ix.data[8..16].try_into().unwrap()))
-                } else if ix.data.get(8) == Some(&1) {
-                    Some(u64::from_le_bytes(ix.data[9..17].try_into().unwrap()))
-                } else {
-                    None
-                };
-                if submitted.map(|f| f & !0b11 != 0).unwrap_or(false) {
-                    self.cov.probe("foreign_flag_bits_submitted");
-                }
-            }
             let set: String = changed.iter().cloned().collect::<Vec<_>>().join("+");
             self.cov.eval(format!("{}|frozen{}|{}", ix.tag, was_frozen as u8, set));
             match ix.tag {
